@@ -296,10 +296,20 @@ def fails(mod, kind, case, bucket=None) -> list[dict]:
 # --------------------------------------------------------------------------
 def _worker(task):
     modname, fname, args = task
+    acc = Acc()
     try:
         mod = importlib.import_module(modname)
-        acc = Acc()
         getattr(mod, fname)(acc, *args)
+        return ("ok", acc.dump())
+    except HarnessError:
+        return ("err", f"task {task!r}\n{traceback.format_exc()}")
+    except Exception as e:  # noqa: BLE001
+        # safety net: an exception that came out of the code under test outside a guarded case
+        # (e.g. while building an evidence sample) is a finding about dep-logic, not a harness error
+        where = in_dep_logic(e.__traceback__)
+        if where is None:
+            return ("err", f"task {task!r}\n{traceback.format_exc()}")
+        acc.fail("task", f"unguarded-exception:{type(e).__name__}@{where}", {"task": [modname, fname, list(args)]}, expected="no exception", got=f"{type(e).__name__}: {str(e)[:200]}")
         return ("ok", acc.dump())
     except BaseException:  # noqa: BLE001
         return ("err", f"task {task!r}\n{traceback.format_exc()}")
